@@ -272,9 +272,16 @@ fn run_suite<S: ShortGroupSignatureScheme>(em: &mut Emitter, rng: &mut Rng, suit
             // find a conformant filler by trying a few times
             for _ in 0..30 {
                 let filler: Vec<ClaimData> = schema_claims.iter().zip(&vecr).map(|(c, v)| if c.claim_type == ClaimType::Revocation { v.clone() } else { rand_claim(rng, c.claim_type) }).collect();
+                // an older identifier first, so that "rev-2" is the newest active one when both are revoked in one batch
+                let older: Vec<ClaimData> = filler.iter().map(|c| if matches!(c, ClaimData::Revocation(_)) { RevocationClaim::from("rev-0-older").into() } else { c.clone() }).collect();
+                let batch = rng.coin() && issuer.sign_credential(&older).is_ok();
                 if issuer.sign_credential(&filler).is_ok() {
-                    if issuer.revoke_credentials(&[RevocationClaim::from("rev-2")]).is_ok() {
+                    let ids: Vec<RevocationClaim> = if batch { vec![RevocationClaim::from("rev-0-older"), RevocationClaim::from("rev-2")] } else { vec![RevocationClaim::from("rev-2")] };
+                    if issuer.revoke_credentials(&ids).is_ok() {
                         revoked.push("rev-2".into());
+                        if batch {
+                            revoked.push("rev-0-older".into());
+                        }
                     }
                     break;
                 }
